@@ -172,7 +172,7 @@ def gen_c13(rng: random.Random, tier: str, fault_override: Optional[List] = None
             ops.append(_mk_op(rng, pending + "_wait"))
             pending = None
     if rng.random() < 0.3:
-        ops.insert(rng.randrange(len(ops) + 1), {"op": "close", "terminate": rng.random() < 0.3})
+        ops.insert(rng.randrange(len(ops) + 1), {"op": "close", "terminate": rng.random() < 0.3, "timeout": rng.choice([None, None, 0, 0.5])})
     faults = fault_override if fault_override is not None else []
     if fault_override is None:
         for _ in range(rng.choice([0, 1, 1, 1, 2])):
@@ -184,7 +184,7 @@ def gen_c13(rng: random.Random, tier: str, fault_override: Optional[List] = None
                 if rng.random() < 0.4:
                     delays.append([e, c, rng.randint(1, 3), round(rng.choice([0.013, 0.07, 0.23]), 4)])
     case = {"engine": "vecsim", "prop": "C13", "spec": spec, "n_envs": n, "copy": True, "delays": delays, "faults": faults,
-            "sched_seed": rng.getrandbits(31), "final_close": {"terminate": rng.random() < 0.15, "timeout": rng.choice([None, None, 0.5])}, "ops": ops}
+            "sched_seed": rng.getrandbits(31), "final_close": {"terminate": rng.random() < 0.15, "timeout": rng.choice([None, None, 0, 0.5])}, "ops": ops}
     # fault enumeration: for this call sequence every single fault (worker x command x call number x kind) is tried once,
     # completely in the thorough tier and for a slice of the space in a tenth of the quick cases
     if fault_override is None and (tier == "thorough" or rng.random() < 0.1):
@@ -205,7 +205,7 @@ def gen_c13(rng: random.Random, tier: str, fault_override: Optional[List] = None
 def _mk_op(rng: random.Random, name: str) -> Dict[str, Any]:
     op: Dict[str, Any] = {"op": name}
     if name.endswith("_wait"):
-        op["timeout"] = rng.choice([None, None, 0.05, 0.5, 2.0])
+        op["timeout"] = rng.choice([None, None, 0, 0.05, 0.5, 2.0])  # 0 = poll without blocking
     if name in ("reset_async",):
         op["seed"] = rng.choice([None, rng.randrange(1000)])
     if name in ("step_async",):
@@ -555,7 +555,7 @@ def _run_c13(ctx, case, sched, world, patched, loc) -> None:
             expect_misuse(fn, ClosedEnvironmentError, f"{name} after close()")
             continue
         if name == "close":
-            okc = _do_close(ctx, case, sched, world, venv, {"terminate": op.get("terminate", False), "timeout": None}, loc, pending=state != "default")
+            okc = _do_close(ctx, case, sched, world, venv, {"terminate": op.get("terminate", False), "timeout": op.get("timeout")}, loc, pending=state != "default")
             closed = True
             if not okc:
                 broken = "close_failed"
@@ -615,7 +615,10 @@ def _run_c13(ctx, case, sched, world, patched, loc) -> None:
                 broken = "die"
                 continue
             if isinstance(err, real_mp.TimeoutError):
-                if not late:
+                if not late and timeout == 0:
+                    # a non-blocking poll may find a worker that simply has not been scheduled yet: reporting that as a timeout is right
+                    ctx.probe("zero_timeout_poll_timed_out")
+                elif not late:
                     ctx.report("C13/timeout:false", f"{name}(timeout={timeout}) timed out at t={sched.now:.3f} although every worker had finished its scripted stalls by "
                                                     f"t={max(ends) if ends else t_async:.3f} (waited from t={t_wait:.3f})", call=name, **loc)
                 else:
@@ -710,6 +713,12 @@ def _do_close(ctx, case, sched, world, venv, how: Dict[str, Any], loc, pending: 
     ctx.log("client", "closed", {"dt": round(sched.now - t0, 4)})
     if sched.now - t0 > remaining + 1.0:
         ctx.report("C13/close_not_prompt", f"close({kw}) took {sched.now - t0:.2f} simulated seconds; all scripted stalls together are {remaining:.2f}s", **lc)
+    elif ("timeout" in kw or "terminate" in kw) and sched.now - t0 > (0.0 if "terminate" in kw else float(kw["timeout"])) + 1e-6:
+        # documented: "If the call to close times out, then all processes are terminated" - a close with a time limit never waits longer than that
+        ctx.report("C13/close_not_prompt", f"close({kw}) took {sched.now - t0:.3f} simulated seconds, longer than its own time limit (a stalled worker was waited for "
+                                           f"instead of being terminated)", **lc)
+    if "timeout" in kw or "terminate" in kw:
+        ctx.probe("close_with_time_limit")
     alive = [p.name for p in venv.processes if p.is_alive()]
     if alive:
         ctx.report("C13/worker_alive_after_close", f"after close({kw}) these workers are still alive: {alive}", **lc)
